@@ -302,9 +302,9 @@ func objLines(o *Obj, ind string) []string {
 			rules = append(rules, fmt.Sprintf("type: %q", p.V.Ref))
 		case "arrobj":
 			sub := objLines(p.V.Obj, ind+"    ")
-			lines = append(lines, key+"[")
+			lines = append(lines, key+"["+strings.Repeat("[", p.V.Wrap))
 			lines = append(lines, sub...)
-			lines = append(lines, ind+"  ]"+comma)
+			lines = append(lines, ind+"  ]"+strings.Repeat("]", p.V.Wrap)+comma)
 			continue
 		case "obj":
 			sub := objLines(p.V.Obj, ind+"  ")
